@@ -14,7 +14,8 @@ EXTENDS LineElements
 CONSTANTS
   Chan,         \* channel ids 1..N
   ChanType,     \* [Chan -> [baudDb, slotDb]]      10 log10 of baud rate / slot width in GHz (udB)
-  ChanType2,    \* [Chan -> [baudDb, slotDb]]      other baud rates / slot widths ON THE SAME FREQUENCIES (second crossing)
+  ChanType2,    \* [Chan -> [baudDb, slotDb]]      other baud rates / slot widths ON THE SAME FREQUENCIES (second crossing);
+                \*   the bounded instance makes it a single-rate spectrum on a flexible grid (one baud rate, several slot widths)
   Stages,       \* subset of {"designed", "reloaded", "yang"}: the crossing is made on the designed network, or on the network
                 \*   exported (network_to_json / save_network) and loaded again, in the legacy form or converted to the YANG
                 \*   form (RFC 7951 JSON) and loaded through load_network - the configuration is the same
@@ -157,6 +158,12 @@ SecondCrossingOnItsOwn == phase = "out2" => \A k \in 1..N :
                         /\ last2.tgt[k] = Target(NodePolicy(cfg), DegSetting(cfg), ChanRecOf(ChanType2, cfg, k, 0))
                         /\ last2.out[k] = MinI(last2.tgt[k] + cfg.offset[k], last2.in[k] - PathLoss(cfg)[k])
                         /\ last2.out[k] <= last2.in[k]
+\* ... and its targets are per carrier: whatever the carriers have in common (here the baud rate), two carriers' targets
+\* differ by exactly the difference of the quantity the policy in force scales with (nothing / baud rate / slot width)
+EffPolicy(c) == IF c.degKind # "none" THEN [kind |-> DegKindOf(c.degKind), v |-> DegValueOf(c.degKind)] ELSE NodePolicy(c)
+ScaleOf(kind, t) == IF kind = "pch" THEN 0 ELSE IF kind = "psd" THEN t.baudDb ELSE t.slotDb
+SecondCrossingPerCarrier == phase = "out2" => \A k, j \in 1..N :
+                        last2.tgt[k] - last2.tgt[j] = ScaleOf(EffPolicy(cfg).kind, ChanType2[k]) - ScaleOf(EffPolicy(cfg).kind, ChanType2[j])
 \* the path loss is the one of the profile named for the pair of degrees, else of the first listed profile of the type
 PathLossByListing == Crossed => PathLoss(cfg) = (IF cfg.prof = "explicit" THEN [k \in Chan |-> cfg.maxloss[k] + Extra] ELSE cfg.maxloss)
 \* the target is the egress degree's setting if one exists (of whatever kind), else the node's
